@@ -405,7 +405,7 @@ func genShutCase(rt *rapid.T) shutCase {
 
 func TestC20(t *testing.T) {
 	st := statsFor("C20", "TestC20")
-	st.Rule = "each generated scenario runs in its own child process: a background activity is held at an instrumented point (expiry timer at its entry / between selecting and deleting, a writer between commit and post, StartDCPFeed between backfill and registration, a feed callback mid-delivery, the stale=updateAfter goroutine at its start), then CloseAndDelete / the last Close of an on-disk bucket / DropDataStore runs through any handle, and the held activity is released before or after; the child must not panic or deadlock (watchdog + goroutine dump), later calls must return errors, an unrelated bucket must stay usable, no feed / timer / view goroutine may remain and the feed's done channel must close; non-trivial = the activity was provably held when the shutdown call started; distinct by scenario parameters"
+	st.Rule = "each generated scenario runs in its own child process: a background activity is held at an instrumented point (expiry timer at its entry / between selecting and deleting, a writer between commit and post, StartDCPFeed between backfill and registration, a feed callback mid-delivery, the stale=updateAfter goroutine at its start), then CloseAndDelete / the last Close of an on-disk bucket / DropDataStore runs through any handle, and the held activity is released before or after; the child must not panic or deadlock (watchdog + goroutine dump), later calls must return errors, an unrelated bucket must stay usable, no feed / timer / view goroutine may remain and the feed's done channel must close; 35% of the scenarios are free-running storms (2-6 generated worker goroutines, shutdown after a generated number of calls), 8% concurrent opens of a closed on-disk bucket with a pending expiry, 12% close races (a further handle opened 100-200 times, 2-5 goroutines calling through it, closed under them after 0-400 us); non-trivial = the activity was provably held (storms / races: calls were in flight) when the shutdown call started; distinct by scenario parameters"
 	if replayMode() {
 		rp := loadReplay("TestC20")
 		if rp == nil {
